@@ -1,4 +1,5 @@
 import NdnModel.StreamReader
+import NdnModel.Receive
 /-
   The TASK LAYER of the receive path:
     src/ndn/transport/stream_face.py : StreamFace.run      (`aio.create_task(self.callback(typ, buf))`, `while self.running`,
@@ -152,5 +153,78 @@ def Ev.quiet : Ev → Bool
 def Ev.isRaise : Ev → Bool
   | .raise _ => true
   | _ => false
+
+/-! ### UDP face
+
+  src/ndn/transport/udp_face.py: `datagram_received` creates one task per datagram whose first number can be read
+  (`aio.create_task(self.callback(typ, data))`), ignores the others, and looks at nothing else - not at `running`,
+  not at whether `run()` (which only awaits the `close` future) has returned.  `error_received` / `connection_lost`
+  resolve `close`: `run()` returns and `main_loop` does `face.shutdown()`, `_clean_up()`; `shutdown()` clears `running`
+  and closes the transport.  The tasks are left to the loop exactly as for the stream faces.  The state is the same
+  record; of `face` only `status` is used: `running` = `run()` still awaits `close`, `shutdown` = it has returned. -/
+namespace Udp
+
+inductive Ev where
+  | dgram (d : Bytes)     -- the transport calls `datagram_received(d, addr)`
+  | lost                  -- `error_received` / `connection_lost`: `close` resolved, `run()` returns, `main_loop` cleans up
+  | shutdown              -- `app.shutdown()`
+  | turn | step1 | raise (k : Nat)
+  deriving Repr
+
+structure USt (σ : Type) where
+  st : St σ
+  cbErrors : List PyErr        -- exceptions that left `datagram_received` (reach the loop's exception handler)
+
+def step {σ} (caught : List PyErr) (H : Hooks σ) (u : USt σ) : Ev → USt σ
+  | .dgram d =>
+    match Recv.datagramReceived caught d with
+    | .ok (some p) => { u with st := { u.st with queue := u.st.queue ++ [p] } }
+    | .ok none => u
+    | .error e => { u with cbErrors := u.cbErrors ++ [e] }
+  | .lost =>
+    match u.st.face.status with
+    | .running => { u with st := { u.st with face := { u.st.face with status := .shutdown }, running := false,
+                                             app := H.cleanup u.st.app } }
+    | _ => u
+  | .shutdown => { u with st := { u.st with running := false } }
+  | .turn => { u with st := { runTasks H u.st u.st.queue with queue := [] } }
+  | .step1 =>
+    match u.st.queue with
+    | [] => u
+    | p :: q => { u with st := { runTask H u.st p with queue := q } }
+  | .raise k => { u with st := { u.st with bad := k :: u.st.bad } }
+
+def init {σ} (a : σ) : USt σ :=
+  { st := { face := ⟨{}, .typ0, .running⟩, running := true, queue := [], processed := [], bad := [], errors := [],
+            app := a },
+    cbErrors := [] }
+
+def runFrom {σ} (caught : List PyErr) (H : Hooks σ) : USt σ → List Ev → USt σ
+  | u, [] => u
+  | u, e :: es => runFrom caught H (step caught H u e) es
+
+def run {σ} (caught : List PyErr) (H : Hooks σ) (a : σ) (h : List Ev) : USt σ := runFrom caught H (init a) h
+
+def traceFrom {σ} (caught : List PyErr) (H : Hooks σ) : USt σ → List Ev → List (USt σ)
+  | _, [] => []
+  | u, e :: es => step caught H u e :: traceFrom caught H (step caught H u e) es
+
+/-- the datagrams of a history, in order of arrival -/
+def dgrams : List Ev → List Bytes
+  | [] => []
+  | .dgram d :: es => d :: dgrams es
+  | _ :: es => dgrams es
+
+/-- specification: a datagram is a packet iff its first number (the Type) can be read; the packet is the whole datagram -/
+def accepted (ds : List Bytes) : List Pkt :=
+  ds.filterMap fun d => match parseTlNum d 0 with
+    | .ok (t, _) => some (t, d)
+    | .error _ => none
+
+def Ev.isRaise : Ev → Bool
+  | .raise _ => true
+  | _ => false
+
+end Udp
 
 end Ndn.FaceTasks
